@@ -92,6 +92,28 @@ def program(draw, tier):
         wide_at = len(pool) - 3
     else:
         wide_at = None
+    if tier != "quick" and draw(st.sampled_from(range(40))) == 5:
+        # (thorough tiers only: each such pair costs seconds of difflib time)
+        # two texts beyond the 10 000-character compare cutoff of mime data, 0.7-0.95 similar: met first as cell sources (no cutoff),
+        # later as text/plain of an execute_result (cutoff) - a verdict remembered per pair of texts would leak between the two uses
+        t1 = "".join("line %03d of a long text: %s\n" % (i, "abcdefghij" * 8) for i in range(110))
+        t2 = "".join("line %03d of a long text: %s\n" % (i, ("abcdefghij" if i % 5 else "ABCDEFGHIJ") * 8) for i in range(110))
+        def _cell(src, outs, k):
+            c = {"cell_type": "code", "metadata": {}, "source": src, "outputs": outs, "execution_count": 1 if outs else None}
+            if base.get("nbformat_minor", 0) >= 5:
+                c["id"] = "long%d" % k
+            return c
+        def _res(t):
+            return [{"output_type": "execute_result", "execution_count": 1, "metadata": {}, "data": {"text/plain": t}}]
+        longs = []
+        for k, cells in enumerate([[_cell(t1, [], 0)], [_cell(t2, [], 0)], [_cell("x", _res(t1), 0)], [_cell("x", _res(t2), 0)]]):
+            nb = copy.deepcopy(base)
+            nb["cells"] = cells
+            longs.append(nb)
+        long_at = len(pool)
+        pool += longs
+    else:
+        long_at = None
     # families (base, L, R) in which both sides insert the same new cell at one position, the two copies differing in ONE category
     families = []
     for k in range(draw(st.sampled_from([0, 1, 2, 2]))):
@@ -137,6 +159,9 @@ def program(draw, tier):
                                      ["ignores", {"/cells/*/metadata": True, "/cells/*/id": True}], ["targets", [True, True, True, False, True, True]]]))
         at = draw(st.integers(0, len(steps)))
         steps[at:at] = [conf, ["diff", wide_at, wide_at + 1], ["diff", 0, wide_at + 2], ["diff", wide_at + 1, 0]]
+    if long_at is not None:
+        at = draw(st.integers(0, len(steps)))
+        steps[at:at] = [["diff", long_at, long_at + 1], ["diff", long_at + 2, long_at + 3]]
     for f in families:
         if draw(st.booleans()):
             # the same triple merged twice in a row under two option sets that differ in one option
